@@ -68,6 +68,12 @@ type idealState struct {
 	scalars map[*Value][]*Term
 	// operations log for provenance / freshness assertions
 	nonceUse []nonceUse
+	// every Seal call (also those that repeat an earlier one): key and nonce
+	sealCalls []sealCall
+}
+
+type sealCall struct {
+	key, nonce []*Term
 }
 
 type nonceUse struct {
@@ -497,6 +503,27 @@ func (ex *Exec) eqDH(a, b *idealApp) *Term {
 // ---------------------------------------------------------------------------
 // AEAD
 
+// nonceReuse: some two Seal calls so far used the same key and nonce.
+func (ex *Exec) nonceReuse() *Term {
+	st := ex.idl()
+	r := ex.C.False()
+	for i := range st.sealCalls {
+		for j := i + 1; j < len(st.sealCalls); j++ {
+			a, b := st.sealCalls[i], st.sealCalls[j]
+			m := ex.eqBytes(a.key, b.key)
+			if m.IsFalse() {
+				continue
+			}
+			m = ex.C.And(m, ex.eqBytes(a.nonce, b.nonce))
+			if m.IsFalse() {
+				continue
+			}
+			r = ex.C.Or(r, m)
+		}
+	}
+	return r
+}
+
 func (ex *Exec) errAuth() Value {
 	return ex.newError("chacha20poly1305: message authentication failed")
 }
@@ -511,6 +538,7 @@ func (ex *Exec) aeadSeal(key []*Term, dst Value, nonce, pt, ad Value, who string
 	}
 	nt := ex.sliceTerms(nonce)
 	adt := ex.sliceTerms(ad)
+	st.sealCalls = append(st.sealCalls, sealCall{key: key, nonce: nt})
 	e := &sealEntry{id: len(st.seals), key: key, nonce: nt, ad: adt, by: who}
 	ps, _ := pt.(Slice)
 	var n int64 = -1
